@@ -403,7 +403,7 @@ PROPS["C08"] = dict(
           "advertisement after the baseline is reported exactly once; no block requested twice; latest-synced == last announced head or an error "
           "notification. distinct_nontrivial = run configurations x (coalescing seen, spawn-while-running seen); distinct interleaving "
           "signatures are counted separately."),
-    floors={"quick": {"coalesced_announcements": 100, "spawn_while_previous_sync_running": 20, "syncs_observed": 300, "runs_reaching_the_concurrency_limit": 3}},
+    floors={"quick": {"coalesced_announcements": 100, "spawn_while_previous_sync_running": 20, "syncs_observed": 300, "runs_reaching_the_concurrency_limit": 3, "runs_with_last_known_baseline": 10, "explicit_syncs_with_expiring_context": 20}},
     max_counters=["max_concurrent_announce_syncs"],
     watchdog_s={"quick": 900, "thorough": 7200},
     level_text=("Exploration over schedules: many short seeded runs with injected delays; every run's full event log is checked offline for mutual "
